@@ -650,3 +650,56 @@ def order_coverage(pm):
         if table:
             out[name + "_coverage"] = table
     return out
+
+
+# ------------------------------------------------------------------------------------
+# P5b: one forked discipline serving many inputs, some of which make it fail
+# ------------------------------------------------------------------------------------
+def p5b_one_discipline_many_inputs(ctx):
+    from gemseo.core.parallel_execution.disc_parallel_execution import DiscParallelExecution
+
+    t = ctx.tape
+    n_inputs = t.randint(2, 6, "n_inputs")
+    n_workers = t.randint(2, 4, "n_workers")
+    faults_on = t.flag(0.5, "faults_on")
+    fails = [faults_on and t.flag(0.25, f"fail[{i}]") for i in range(n_inputs)]
+    sizes = {"a": 2, "y": 2}
+
+    def hook(disc, kind, snap):
+        if kind == "run" and any(fails[i] and abs(float(snap["a"][0]) - float(i)) < 1e-12 for i in range(n_inputs)):
+            raise InjectedFailure("injected failure for this input")
+
+    d = HDisc("D0", ["a"], ["y"], sizes, salt=3, hook=hook)
+    d.set_cache(d.CacheType.NONE)
+    inputs = [{"a": array([float(i), 0.5])} for i in range(n_inputs)]
+    cfg = {"workload": "P5b-one-discipline-many-inputs/proc", "n_inputs": n_inputs, "n_workers": n_workers, "failing": [i for i in range(n_inputs) if fails[i]]}
+    ctx.event("cfg", canon(cfg))
+    sig = cfg["workload"]
+    clock = SimClock()
+    log = []
+    with engine(ctx, "proc", clock) as eng:
+        par = DiscParallelExecution([d], n_processes=n_workers)
+        out = par.execute(inputs, exec_callback=lambda i, o: log.append(i))
+        actions = list(eng.e.actions)
+    failing = {i for i in range(n_inputs) if fails[i]}
+    ctx.fire("task_raises", len(failing))
+    ctx.event("out", canon([None if o is None else o["y"] for o in out]), tuple(log), tuple(actions))
+    collateral = [i for i in range(n_inputs) if i not in failing and out[i] is None]
+    if collateral:
+        ctx.violate("C13.positional", sig + " failure-spreads-to-later-tasks-of-the-same-worker",
+                    f"tasks {collateral} did not fail but their slots are None (failing tasks: {sorted(failing)}): a discipline that failed in a worker process stays FAILED there and "
+                    f"every later task served by that process fails too; schedule={actions}; cfg={cfg}", fatal=False)
+    for i in range(n_inputs):
+        if i in failing:
+            if out[i] is not None:
+                ctx.violate("C13.positional", sig, f"slot {i} of a failing task holds {out[i]}; cfg={cfg}")
+        elif out[i] is not None and not _eq_data(out[i]["y"], d.f(inputs[i])["y"]):
+            ctx.violate("C13.positional", sig, f"slot {i}: y={out[i]['y']} expected {d.f(inputs[i])['y']}; schedule={actions}; cfg={cfg}")
+    ok = sorted(i for i in range(n_inputs) if out[i] is not None)
+    if sorted(log) != ok:
+        ctx.violate("C13.callback", sig, f"callback indices {log} but successful slots are {ok}; cfg={cfg}")
+    completes = [i for k, i in actions if k == "complete"]
+    if completes != sorted(completes):
+        ctx.probe("completion_order_differs_from_submission")
+    ctx.case((sig, n_inputs, n_workers, tuple(sorted(failing)), tuple(actions)), nontrivial=True)
+    ctx.sample = {"cfg": cfg, "schedule": actions, "none_slots": [i for i in range(n_inputs) if out[i] is None]}
